@@ -1,6 +1,254 @@
-import Brax.Spec.MjKinematics
-import Brax.Lemmas.Real
-/-! # C01 — placeholder while the model/correspondence is being brought up -/
+import Brax.Lemmas.KinVel
+/-!
+# C01 — forward kinematics matches the reference engine for every model and pose
+
+`Kin.forward` is the model of `brax.kinematics.forward` (tied to the code on every run by the
+correspondence of `harness/corr_C01.py`), `Mj.kinematics` is MuJoCo's sequential algorithm
+(tied to the real `mujoco.mj_forward` by the second leg).  The theorems below hold for
+**every** forest (any number of links), every joint stack (any number and mix of hinge/slide
+joints, arbitrary unit axes, shared anchor) and every `q`.
+
+Only property theorems live here; helper lemmas are in `Brax/Lemmas/{Algebra,Norm,Scan,KinPos}`.
+-/
+set_option linter.unusedSectionVars false
 namespace Brax.C01
-theorem placeholder : True := trivial
+open Brax Kin KinPos KinVel
+
+/-- **one link**: brax's world transform of a link equals MuJoCo's body pose, given the same
+parent pose (a unit quaternion), and is again a unit quaternion -/
+theorem link_pose_eq (p : Int) (par : Option (Tf ℝ × Motion ℝ)) (par' : Option (Tf ℝ))
+    (lk : LinkP ℝ) (l : LinkIn ℝ) (jd : Motion ℝ)
+    (hpar : OptRel (fun (x : Tf ℝ × Motion ℝ) (s : Tf ℝ) => x.1 = s ∧ s.rot.IsUnit) par par')
+    (hok : LinkOK p lk l) (hroot : p < 0 → par = none) :
+    (world par (placeJoint lk (jcalc l).1, jd)).1 = Mj.bodyPose par' lk l
+      ∧ (Mj.bodyPose par' lk l).rot.IsUnit := by
+  by_cases hfree : l.typ = .free
+  · -- free link: a root; q is the world pose
+    obtain ⟨hp, htf, hjp, hqd, p0, p1, p2, r0, r1, r2, r3, hq, hu⟩ := hok.free hfree
+    have hnone := hroot hp
+    subst hnone
+    cases hpar
+    obtain ⟨v0, v1, v2, w0, w1, w2, hqd'⟩ : ∃ v0 v1 v2 w0 w1 w2, l.qd = [v0, v1, v2, w0, w1, w2] := by
+      match hm : l.qd, hqd with
+      | [a, b, c, d, e, f], _ => exact ⟨a, b, c, d, e, f, rfl⟩
+    have hj : (jcalc l).1 = ⟨⟨p0, p1, p2⟩, ⟨r0, r1, r2, r3⟩⟩ := by
+      unfold jcalc; rw [hfree]; simp only [hq, hqd']
+    have hpose : Mj.bodyPose none lk l = ⟨⟨p0, p1, p2⟩, ⟨r0, r1, r2, r3⟩⟩ := by
+      unfold Mj.bodyPose; rw [hfree]; simp only [hq, normalize4_unit hu]
+    rw [hpose, hj]
+    refine ⟨?_, hu⟩
+    simp only [world, placeJoint_eq lk _ hok.jointRot, htf, hjp, stackPose, Tf.id_doTf, rotate_zero,
+      V3.add_zero', V3.sub_def, V3.zero, sub_zero]
+    congr 1
+    apply V3.ext' <;> simp [rotate, V3.dot, V3.cross, Q4.vec]
+  · -- hinge/slide stack
+    obtain ⟨hq, hqd, hd⟩ := hok.nonfree hfree
+    have hj := jcalc_fst_nonfree l hfree hq hqd
+    rw [hj, placeJoint_eq lk _ hok.jointRot]
+    -- the start pose and its unit quaternion
+    have key : ∀ (start : Tf ℝ), start.rot.IsUnit →
+        (l.dofs.zip l.q).foldl (Mj.applyJoint lk.joint.pos) start
+          = stackPose start lk.joint.pos (stackTf (l.dofs.zip l.q))
+        ∧ (stackTf (l.dofs.zip l.q)).rot.IsUnit := by
+      intro start hs
+      have := foldl_applyJoint start lk.joint.pos hs (l.dofs.zip l.q) Tf.id Q4.isUnit_one hd
+      rw [stackPose_id] at this
+      exact this
+    have hunitPose : ∀ (start : Tf ℝ), start.rot.IsUnit →
+        (stackPose start lk.joint.pos (stackTf (l.dofs.zip l.q))).rot.IsUnit := by
+      intro start hs
+      simp only [stackPose, Tf.doTf]
+      exact Q4.IsUnit.mul hs (key start hs).2
+    have hstartU : (startPose par' lk).rot.IsUnit := by
+      cases hpar with
+      | none => exact hok.bodyUnit
+      | some hab => simp only [startPose, Tf.doTf]; exact Q4.IsUnit.mul hab.2 hok.bodyUnit
+    rw [bodyPose_nonfree par' lk l hfree, (key _ hstartU).1, normalize4_unit (hunitPose _ hstartU)]
+    refine ⟨?_, hunitPose _ hstartU⟩
+    cases hpar with
+    | none => rfl
+    | @some a b hab =>
+      obtain ⟨a1, a2⟩ := a
+      obtain ⟨hab1, _⟩ := hab
+      simp only at hab1
+      subst hab1
+      simp only [world, startPose, stackPose, Tf.doTf_assoc]
+
+/-- all links of a system with state `q`, `qd` satisfy `LinkOK` -/
+def KinOK (s : Sys ℝ) (q qd : List ℝ) : Prop :=
+  ∀ x ∈ s.parents.zip (s.links.zip (linkSlices s.types q qd s.dofs)), LinkOK x.1 x.2.1 x.2.2
+
+/-- **C01, positions and orientations.**  For every system (any forest, any stacks) and every
+state satisfying `KinOK`, the world transform brax reports for every link equals MuJoCo's
+`xpos`/`xquat` — exactly, over the reals (so "up to quaternion sign" is not even needed). -/
+theorem forward_pos_eq_mj (s : Sys ℝ) (q qd : List ℝ) (h : KinOK s q qd) :
+    (forward s q qd).map (·.1) = Mj.kinematics s q := by
+  have hrel := scanFwd_rel
+    (fun (x : Tf ℝ × Motion ℝ) (y : Tf ℝ) => x.1 = y ∧ y.rot.IsUnit)
+    (fun p (a : Tf ℝ × Motion ℝ) (b : LinkP ℝ × LinkIn ℝ) => ∃ l, a = linkArg (b.1, l)
+      ∧ (l.typ = b.2.typ ∧ l.q = b.2.q ∧ l.dofs = b.2.dofs) ∧ LinkOK p b.1 l)
+    world (fun par (a : LinkP ℝ × LinkIn ℝ) => Mj.bodyPose par a.1 a.2)
+    (by
+      intro p par par' a b hpar hS hroot
+      obtain ⟨l, ha, hc, hok⟩ := hS
+      subst ha
+      have := link_pose_eq p par par' b.1 l (linkArg (b.1, l)).2 hpar hok hroot
+      rw [bodyPose_congr par' b.1 l b.2 hc] at this
+      exact this)
+    s.parents _ _
+    (zip_rel s.parents s.links _ _ (linkSlices_q_rel s.types q qd (q.map fun _ => 0) s.dofs) h)
+  unfold forward Mj.kinematics
+  simp only [List.map_map]
+  have hmapArg : (s.links.zip (linkSlices s.types q qd s.dofs)).map (fun li =>
+        (placeJoint li.1 (jcalc li.2).1,
+          (⟨(jcalc li.2).2.ang, rotate (jcalc li.2).2.vel li.1.tf.rot⟩ : Motion ℝ)))
+      = (s.links.zip (linkSlices s.types q qd s.dofs)).map linkArg := rfl
+  rw [hmapArg]
+  generalize scanFwd world s.parents ((s.links.zip (linkSlices s.types q qd s.dofs)).map linkArg) = xs at hrel
+  generalize scanFwd (fun par (a : LinkP ℝ × LinkIn ℝ) => Mj.bodyPose par a.1 a.2) s.parents
+    (s.links.zip (linkSlices s.types q (q.map fun _ => 0) s.dofs)) = ys at hrel
+  induction hrel with
+  | nil => rfl
+  | @cons x y xs ys hxy _ ih =>
+    obtain ⟨h1, h2⟩ := hxy
+    simp only [List.map_cons, Function.comp]
+    rw [ih]
+    congr 1
+    rw [← h1] at h2 ⊢
+    rw [normalize4_unit h2]
+
+
+/-- the flagged reference scan projects onto `Mj.kinematicsVel` (the flag is only carried along) -/
+theorem kinematicsVelFlag_fst (s : Sys ℝ) (q qd : List ℝ) :
+    (kinematicsVelFlag s q qd).map (·.1) = Mj.kinematicsVel s q qd := by
+  have hrel := scanFwd_rel
+    (fun (y : (Tf ℝ × Motion ℝ) × Prop) (y' : Tf ℝ × Motion ℝ) => y.1 = y')
+    (fun _ (a b : LinkP ℝ × LinkIn ℝ) => a = b)
+    specStep (fun par (a : LinkP ℝ × LinkIn ℝ) => Mj.bodyPoseVel par a.1 a.2)
+    (by
+      intro p par par' a b hpar hS _
+      subst hS
+      simp only [specStep]
+      congr 1
+      cases hpar with
+      | none => rfl
+      | some h => simp only [Option.map_some, h])
+    s.parents (s.links.zip (linkSlices s.types q qd s.dofs)) (s.links.zip (linkSlices s.types q qd s.dofs))
+    (zip_refl s.parents _)
+  unfold kinematicsVelFlag Mj.kinematicsVel
+  generalize scanFwd specStep s.parents _ = xs at hrel
+  generalize scanFwd (fun par (a : LinkP ℝ × LinkIn ℝ) => Mj.bodyPoseVel par a.1 a.2) s.parents _ = ys at hrel
+  induction hrel with
+  | nil => rfl
+  | cons h _ ih => simp only [List.map_cons, ih, h]
+
+/-- **C01, velocities (partial: the links the property names).**  For every system and state
+satisfying `KinOK`, every link reports MuJoCo's pose, and every link that is attached — and
+whose ancestors are all attached — by a free joint, a single slide joint, or a single hinge
+joint anchored at the link origin (the flag of `kinematicsVelFlag`) also reports MuJoCo's world
+linear and angular velocity.  Links with stacked joints or a hinge anchor away from the link
+origin, and their descendants, are not covered: that is the documented upstream limitation
+(known finding K1), for which the full statement is false of the code. -/
+theorem forward_vel_eq_mj_partial (s : Sys ℝ) (q qd : List ℝ) (h : KinOK s q qd) :
+    List.Forall₂ (fun (x : Tf ℝ × Motion ℝ) (y : (Tf ℝ × Motion ℝ) × Prop) =>
+        x.1 = y.1.1 ∧ (y.2 → x.2 = y.1.2))
+      (forward s q qd) (kinematicsVelFlag s q qd) := by
+  have hrel := scanFwd_rel
+    (fun (x : Tf ℝ × Motion ℝ) (y : (Tf ℝ × Motion ℝ) × Prop) =>
+      x.1 = y.1.1 ∧ y.1.1.rot.IsUnit ∧ (y.2 → x.2 = y.1.2))
+    (fun p (a : Tf ℝ × Motion ℝ) (b : LinkP ℝ × LinkIn ℝ) => a = linkArg b ∧ LinkOK p b.1 b.2)
+    world specStep
+    (by
+      intro p par par' a b hpar hS hroot
+      obtain ⟨ha, hok⟩ := hS
+      subst ha
+      have hparPos : OptRel (fun (x : Tf ℝ × Motion ℝ) (s : Tf ℝ) => x.1 = s ∧ s.rot.IsUnit) par
+          ((par'.map Prod.fst).map Prod.fst) := by
+        cases hpar with
+        | none => exact OptRel.none
+        | some hab => exact OptRel.some ⟨hab.1, hab.2.1⟩
+      have hpos : (world par (linkArg (b.1, b.2))).1
+            = Mj.bodyPose ((par'.map Prod.fst).map Prod.fst) b.1 b.2
+          ∧ (Mj.bodyPose ((par'.map Prod.fst).map Prod.fst) b.1 b.2).rot.IsUnit :=
+        link_pose_eq p par ((par'.map Prod.fst).map Prod.fst) b.1 b.2 (linkArg b).2 hparPos hok hroot
+      have hfst := bodyPoseVel_fst (par'.map Prod.fst) b.1 b.2
+      simp only [specStep]
+      refine ⟨?_, ?_, ?_⟩
+      · rw [hfst]; exact hpos.1
+      · rw [hfst]; exact hpos.2
+      · rintro ⟨hflag, hel⟩
+        have hparFull : OptRel (fun (x y : Tf ℝ × Motion ℝ) => x = y ∧ y.1.rot.IsUnit) par
+            (par'.map Prod.fst) := by
+          cases hpar with
+          | none => exact OptRel.none
+          | @some x y hab =>
+            refine OptRel.some ⟨?_, hab.2.1⟩
+            exact Prod.ext hab.1 (hab.2.2 hflag)
+        exact link_vel_eq p par (par'.map Prod.fst) b.1 b.2 hparFull hok hroot hel hpos.1)
+    s.parents _ _ (zip_rel_same s.parents _ h)
+  unfold forward kinematicsVelFlag
+  have hmapArg : (s.links.zip (linkSlices s.types q qd s.dofs)).map (fun li =>
+        (placeJoint li.1 (jcalc li.2).1,
+          (⟨(jcalc li.2).2.ang, rotate (jcalc li.2).2.vel li.1.tf.rot⟩ : Motion ℝ)))
+      = (s.links.zip (linkSlices s.types q qd s.dofs)).map linkArg := rfl
+  simp only
+  rw [hmapArg]
+  generalize scanFwd world s.parents ((s.links.zip (linkSlices s.types q qd s.dofs)).map linkArg) = xs at hrel
+  generalize scanFwd specStep s.parents (s.links.zip (linkSlices s.types q qd s.dofs)) = ys at hrel
+  induction hrel with
+  | nil => exact List.Forall₂.nil
+  | @cons x y xs ys hxy _ ih =>
+    obtain ⟨h1, h2, h3⟩ := hxy
+    simp only [List.map_cons]
+    refine List.Forall₂.cons ⟨?_, h3⟩ ih
+    rw [← h1] at h2
+    rw [normalize4_unit h2]
+    exact h1
+
+
+/-! ## non-vacuity: a concrete system and state satisfying `KinOK`
+
+A free root and a child attached by a hinge about z at the link origin, on a body rotated by the
+unit quaternion (3/5, 4/5, 0, 0) and offset by (1, 2, 3); root quaternion (0, 1, 0, 0). -/
+
+noncomputable def exLink (tf : Tf ℝ) : LinkP ℝ :=
+  ⟨tf, ⟨V3.zero, Q4.one⟩, ⟨Tf.id, M3.one, 1⟩, 0, 0, 0, 0, 0⟩
+noncomputable def exDof (m : Motion ℝ) : DofP ℝ := ⟨m, 0, 0, 0, none, none, 0⟩
+noncomputable def exFreeDofs : List (DofP ℝ) :=
+  [exDof ⟨V3.zero, ⟨1, 0, 0⟩⟩, exDof ⟨V3.zero, ⟨0, 1, 0⟩⟩, exDof ⟨V3.zero, ⟨0, 0, 1⟩⟩,
+   exDof ⟨⟨1, 0, 0⟩, V3.zero⟩, exDof ⟨⟨0, 1, 0⟩, V3.zero⟩, exDof ⟨⟨0, 0, 1⟩, V3.zero⟩]
+noncomputable def exSys : Sys ℝ :=
+  { types := [.free, .one], parents := [-1, 0],
+    links := [exLink Tf.id, exLink ⟨⟨1, 2, 3⟩, ⟨3/5, 4/5, 0, 0⟩⟩],
+    dofs := exFreeDofs ++ [exDof ⟨⟨0, 0, 1⟩, ⟨0, 0, 0⟩⟩],
+    hasLimit := false, acts := [], gravity := V3.zero, dt := 1, velDamping := 0, angDamping := 0,
+    baumgarteErp := 0, springMassScale := 0, springInertiaScale := 0, jointScaleAng := 0,
+    jointScalePos := 0, collideScale := 0 }
+noncomputable def exQ : List ℝ := [0, 0, 1, 0, 1, 0, 0, 1/2]
+noncomputable def exQd : List ℝ := [1, 0, 0, 0, 0, 1, 2]
+
+example : KinOK exSys exQ exQd := by
+  intro x hx
+  simp only [exSys, exQ, exQd, exFreeDofs, linkSlices, LinkType.qWidth, LinkType.qdWidth,
+    List.zip_cons_cons, List.zip_nil_right, List.mem_cons, List.mem_nil_iff, or_false,
+    List.take, List.drop, List.cons_append, List.nil_append] at hx
+  rcases hx with rfl | rfl
+  · refine ⟨Q4.isUnit_one, rfl, fun _ => ⟨by norm_num, rfl, rfl, rfl, 0, 0, 1, 0, 1, 0, 0, rfl, ?_⟩,
+      fun h => absurd rfl h⟩
+    norm_num [Q4.IsUnit, Q4.normSq]
+  · refine ⟨by norm_num [exLink, Q4.IsUnit, Q4.normSq], rfl, fun h => by simp at h, fun _ => ⟨rfl, rfl, ?_⟩⟩
+    intro dq hdq
+    simp only [List.zip_cons_cons, List.zip_nil_right, List.mem_cons, List.mem_nil_iff, or_false] at hdq
+    subst hdq
+    left
+    refine ⟨rfl, ?_⟩
+    norm_num [exDof, V3.dot]
+
+/-- in that example the child link is eligible for the velocity clause -/
+example : VelElig (exLink ⟨⟨1, 2, 3⟩, ⟨3/5, 4/5, 0, 0⟩⟩)
+    ⟨.one, [1/2], [2], [exDof ⟨⟨0, 0, 1⟩, ⟨0, 0, 0⟩⟩]⟩ := by
+  right
+  refine ⟨rfl, _, _, _, rfl, rfl, rfl, Or.inr ⟨⟨rfl, ?_⟩, rfl⟩⟩
+  norm_num [exDof, V3.dot]
+
 end Brax.C01
